@@ -226,7 +226,7 @@ def default_search(run):
     deep = Run(run.prop, "thorough", run.seed)
 
     class _Timeout(BaseException):      # not an Exception: must not be mistaken for an error of the code under test
-        pass
+        harness_interrupt = True        # e2e.run_real re-raises it instead of recording it as an abort of the run
 
     def _alarm(*a):
         raise _Timeout()
